@@ -2302,12 +2302,17 @@ func (p *Parser) evaluateComparison(ctx context) (Expression, error) {
 	if err != nil {
 		return nil, err
 	}
-	operatorToken := p.peek()
-	operator := operatorToken.Value()
 
-	if operatorToken.Type() == lexer.COMPARE_OPERATOR {
+	// Comparisons associate to the left like the other binary operations (1 < 2 == true is (1 < 2) == true).
+	for {
+		operatorToken := p.peek()
+		operator := operatorToken.Value()
+
+		if operatorToken.Type() != lexer.COMPARE_OPERATOR {
+			break
+		}
 		p.eat() // Eat operator token.
-		rightExpression, err := p.evaluateComparison(ctx)
+		rightExpression, err := p.evaluateAddition(ctx)
 
 		if err != nil {
 			return nil, err
@@ -2323,7 +2328,7 @@ func (p *Parser) evaluateComparison(ctx context) (Expression, error) {
 		if !slices.Contains(allowedOperators, operator) {
 			return nil, p.expectedError(fmt.Sprintf(`valid %s operator but got "%s"`, leftType.String(), operator), operatorToken)
 		}
-		return NewComparison(leftExpression, operator, rightExpression), nil
+		leftExpression = NewComparison(leftExpression, operator, rightExpression)
 	}
 	return leftExpression, nil
 }
